@@ -566,10 +566,96 @@ func runC12(c *core.Ctx) core.Meta {
 		}
 	}
 
+	// ---------------- R12.7 a run request is never dropped on the word of a stale flag ----------------
+	st7 := c.Rule("R12.7", "when runAsync finds engineRunning set and therefore does not start an engine goroutine, it leaves a re-run request (a store under engineRunningMutex) and runEngine clears engineRunning only on a path on which it found that request absent, under the same mutex, running the engine again otherwise: the engine can already have found its event queue empty when the flag is read, and the tick scheduled for the request would never be executed (DrainCommandQueue blocks forever)", 1)
+	if ra, re := c.MustFunc("R12.7", driverPkg, "Driver.runAsync"), c.MustFunc("R12.7", driverPkg, "Driver.runEngine"); ra != nil && re != nil {
+		c.MarkAnalysed(ra)
+		c.MarkAnalysed(re)
+		gra := core.BuildGraph(ra, 0, nil)
+		// does runAsync skip starting the engine on engineRunning == true?
+		skips := false
+		var reqField string
+		for _, n := range gra.Nodes {
+			iff, ok := n.Instr.(*ssa.If)
+			if !ok {
+				continue
+			}
+			f := core.LoadedField(iff.Cond)
+			if f == nil || core.ShortFieldID(f) != "Driver.engineRunning" {
+				continue
+			}
+			skips = true
+			// on the true edge, before looping back: a store of true into another Driver field, with the mutex held
+			ls := locksets(ra)
+			gra.Walk([]core.State{{N: n.Succs[0]}}, core.WalkOpts{ForwardOnly: true}, func(st core.State) {
+				if s, ok := st.N.Instr.(*ssa.Store); ok {
+					if wf := core.FieldOfAddr(s.Addr); wf != nil && core.ShortFieldID(wf) != "Driver.engineRunning" && strings.HasPrefix(core.ShortFieldID(wf), "Driver.") {
+						if b, isC := core.ConstBool(s.Val); isC && b {
+							held := false
+							for k := range ls[st.N.Instr] {
+								if k.field == "engineRunningMutex" {
+									held = true
+								}
+							}
+							if held {
+								reqField = core.ShortFieldID(wf)
+							}
+						}
+					}
+				}
+			})
+		}
+		st7.Instances++
+		if !skips {
+			st7.Ob(true)
+			st7.Sample("runAsync starts (or queues) an engine run for every signal: no request can be dropped")
+		} else {
+			st7.Ob(reqField != "")
+			st7.Sample("runAsync leaves a re-run request in %q when it finds the engine flagged as running", reqField)
+			if reqField == "" {
+				c.ReportAt("R12.7", ra, ra.Pos(), "rerun-request:missing", "runAsync skips starting the engine when engineRunning is set and records nothing: if the engine goroutine has already found its event queue empty and is about to clear the flag, the tick scheduled for this signal is never executed and DrainCommandQueue blocks forever (lost wake-up between runAsync and runEngine)")
+			} else {
+				// runEngine: engineRunning=false guarded by reqField == false, and Engine.Run reachable from the reqField == true edge
+				gre := core.BuildGraph(re, 0, nil)
+				okClear, okLoop := true, false
+				for _, n := range gre.Nodes {
+					if s, ok := storeToField(n.Instr, "Driver.engineRunning"); ok {
+						if b, isC := core.ConstBool(s.Val); isC && !b {
+							st7.Instances++
+							g1 := gre.Guarded(n, BoolFieldCut(reqField, false))
+							st7.Ob(g1)
+							if !g1 {
+								okClear = false
+							}
+						}
+					}
+					if iff, ok := n.Instr.(*ssa.If); ok {
+						if f := core.LoadedField(iff.Cond); f != nil && core.ShortFieldID(f) == reqField {
+							after, _ := gre.Reach([]core.State{{N: n.Succs[0]}}, core.WalkOpts{})
+							for m := range after {
+								if cc := core.CallOf(m.Instr); cc != nil && cc.IsInvoke() && cc.Method.Name() == "Run" {
+									okLoop = true
+								}
+							}
+						}
+					}
+				}
+				st7.Instances++
+				st7.Ob(okLoop)
+				if !okClear {
+					c.ReportAt("R12.7", re, re.Pos(), "rerun-request:clear-unguarded", "runEngine clears engineRunning on a path that did not find the re-run request ("+reqField+") absent: a request recorded by runAsync is dropped")
+				}
+				if !okLoop {
+					c.ReportAt("R12.7", re, re.Pos(), "rerun-request:not-served", "runEngine does not run the engine again when it finds the re-run request ("+reqField+") set")
+				}
+			}
+		}
+	}
+
 	_ = sort.Strings
 	return core.Meta{Level: "other",
-		Explanation: "Structural conditions whose absence is the lost wake-up, the data race or the reordering, decided on SSA of amd/driver: capacity of channels targeted by non-blocking sends, the subscribe/test/wait/re-test shape of the drain loop, a guarded-by lockset analysis for five field/mutex pairs, no mixed atomic/plain access, FIFO ownership of the command list, one command at a time per queue (start guard, IsRunning pairing), and the frozen inventory of goroutines, selects, engine runs and signal receivers.",
-		NotDecided:  "liveness under all interleavings (a model-checking question), in particular the engine-exit versus enqueue hand-off between runEngine and runAsync; memory effects between commands",
+		Explanation: "Structural conditions whose absence is the lost wake-up, the data race or the reordering, decided on SSA of amd/driver: capacity of channels targeted by non-blocking sends, the subscribe/test/wait/re-test shape of the drain loop, a guarded-by lockset analysis for five field/mutex pairs, no mixed atomic/plain access, FIFO ownership of the command list, one command at a time per queue (start guard, IsRunning pairing), the frozen inventory of goroutines, selects, engine runs and signal receivers, and the hand-off between runAsync and runEngine (a run request recorded while the engine is flagged as running is honoured before the flag is cleared).",
+		NotDecided:  "liveness under all interleavings (a model-checking question); memory effects between commands",
 		Assumptions: commonAssumptions}
 }
 
